@@ -3,6 +3,8 @@ module verifharness
 go 1.14
 
 require (
+	github.com/coreos/etcd v3.3.19+incompatible
+	github.com/dgraph-io/badger/v2 v2.0.3
 	github.com/marekgalovic/anndb v0.0.0
 	github.com/satori/go.uuid v1.2.0
 	github.com/sirupsen/logrus v1.5.0
